@@ -579,8 +579,19 @@ static err_t rngTimerRead(void* buf, size_t* read, size_t count)
 *******************************************************************************
 */
 
+#ifdef BEE2_VERIF
+/* verification hook: entropy-source override (0 unless a simulator installs
+   it; see /verif/DESIGN.md, H-rng-es) */
+err_t (*rngVerifESRead)(size_t* read, void* buf, size_t count,
+	const char* source) = 0;
+#endif
+
 err_t rngESRead(size_t* read, void* buf, size_t count, const char* source)
 {
+#ifdef BEE2_VERIF
+	if (rngVerifESRead)
+		return rngVerifESRead(read, buf, count, source);
+#endif
 	if (strEq(source, "trng"))
 		return rngTRNGRead(buf, read, count);
 	else if (strEq(source, "trng2"))
